@@ -1119,7 +1119,26 @@ def do_lift(code, d, rec):
         if '..' not in rest:
             raise WeaveError('lift-range needs "<first statement>" .. "<statement after the last>"')
         end_anchor = rest[rest.index('..') + 1]
-        pos = nth_occurrence(m, anchor, n, 'lift-range first statement')
+        if 'after' in rest:
+            # range form `lift-range after "<statement>" .. "<end>"`: the range starts right AFTER the statement that begins with
+            # <anchor> (a large stable statement), so that a change which deletes the first lifted statement - or all of them -
+            # still yields a (shorter, possibly empty) lifted function whose contract is then decided
+            anchor = rest[rest.index('after') + 1]
+            p0 = nth_occurrence(m, anchor, n, 'lift-range statement before the range')
+            pos = stmt_end(m, p0 + len(anchor.rstrip().rstrip('{(')), 'lift-range', anchor)
+            anchor = ''
+        elif ' ' in anchor.strip() and anchor not in m:
+            # an anchor that spans lines: its blank-separated parts may be separated by any white space in the source
+            rx = r'\s*'.join(re.escape(p_) for p_ in anchor.split())
+            if anchor[0].isalnum() or anchor[0] == '_':
+                rx = r'(?<![A-Za-z0-9_])' + rx
+            occ = [mm_ for mm_ in re.finditer(rx, m)]
+            if len(occ) < n:
+                raise WeaveError('lost anchor: lift-range first statement (occurrence %d of %r)' % (n, anchor))
+            pos = occ[n - 1].start()
+            anchor = m[pos:occ[n - 1].end()]
+        else:
+            pos = nth_occurrence(m, anchor, n, 'lift-range first statement')
         pos2 = m.find(end_anchor, pos + len(anchor))
         if pos2 < 0:
             raise WeaveError('lost anchor: lift-range end statement %r after %r' % (end_anchor, anchor))
